@@ -154,6 +154,28 @@ theorem source_layouts_agree :
    SourceTie.required_from_source, SourceTie.dm_parse_from_source, SourceTie.dm_write_from_source,
    SourceTie.signed_from_source⟩
 
+/-- **source tie, validation rules** (regenerated on every run from /repo by tools/gen_source_rules.py): the
+`validate()` of every extension-block level, of the header, of the mapping (outside its per-curve loop), of
+`vdr_dm_data` and of the two containers
+(allowed levels, per-level count limits), and the struct fields of every block level in declaration order, as
+they stand in the Rust sources now, are the rules and names of the model — for every block, header, DM payload
+and container -/
+theorem source_rules_agree :
+    (∀ level, Src.blockFieldNames level = blockFieldNames level) ∧
+    (∀ b : Block, Src.blockValidate b = blockValidate b) ∧
+    (∀ (h : Header) profile, Src.headerValidate h profile = h.validate profile) ∧
+    (∀ d : DmData, Src.dmValidate d = d.validate) ∧
+    (∀ (m : Mapping) profile, m.validate profile =
+      (Src.mappingValidateHead m profile && m.curves.all Curve.piecesOk && Src.mappingValidateTail m)) ∧
+    (∀ c : Container, c.validate29 =
+      (c.blocks.all (fun b => Src.cmv29Allowed.contains b.level) && Src.cmv29Counts.all (SourceTie.countRule c.blocks))) ∧
+    (∀ c : Container, c.validate40 =
+      (c.blocks.all (fun b => Src.cmv40Allowed.contains b.level) && Src.cmv40Counts.all (SourceTie.countRule c.blocks))) ∧
+    Src.cmv29Allowed = cmv29Levels ∧ Src.cmv40Allowed = cmv40Levels :=
+  ⟨SourceTie.block_names_from_source, SourceTie.block_validate_from_source, SourceTie.header_validate_from_source,
+   SourceTie.dm_validate_from_source, SourceTie.mapping_validate_from_source, SourceTie.cmv29_validate_from_source, SourceTie.cmv40_validate_from_source,
+   SourceTie.allowed_levels_from_source.1, SourceTie.allowed_levels_from_source.2⟩
+
 /-! ## every parse result is inside the hypothesis of `write_parse_sound` (parse → shape), proved bottom-up in
 `Proofs/ParseWf.lean` -/
 
